@@ -56,6 +56,27 @@ CHECKS = {
         "trusted: Python import machinery, unittest.mock; the reference argv splitter is differential-tested against a locally built argparse parser in selftest/test_c20.py; not demanded: exception types, argv[0], abbreviated long options",
         "explicit-state model checking (BFS to fixpoint) of patch() + exhaustive bounded enumeration of argv sequences against a reference splitter",
     ),
+    "C01": (
+        "E2-product",
+        "exploration",
+        "complete enumeration of the finite product column type spellings x boundary values x ingestion paths (SQL literal, pyformat/qmark parameter, INSERT..SELECT, CTAS, CLONE, write_pandas variants) x NULL placement on fresh instances; every cell read back and compared (multiset of rows, Python type per family, exact value equality, NULL<->None, bystanders by raw-DuckDB digest)",
+        "trusted: raw DuckDB cursor for staging and ground truth; reference model mc/ref/c01_model.py (selftested); not demanded: see module docstring (-0.0 via text, years<1000 via pyformat, JSON whitespace, TIMESTAMP_LTZ)",
+        "bounded exhaustive enumeration (finite input product) on the real code against a reference model; no state search needed: each cell is an independent one-step history",
+    ),
+    "C08": (
+        "E2-product",
+        "exploration",
+        "complete enumeration of parameter values (53 adversarial strings, numeric/temporal boundary values) x 13 placeholder positions x 4 paramstyles, all ordered string pairs in adjacent placeholders, executemany over 0/1/3 parameter sets, and paramstyle changes after connect; each case executed with bound parameters and with an independently rendered literal, compared through raw DuckDB ground truth",
+        "trusted: independent literal renderer mc/ref/sf_literal.py (selftested, imports nothing from the connector); not demanded: NaN/Infinity, numeric paramstyle, floats with more than 15 significant digits",
+        "bounded exhaustive enumeration (finite input product) with a differential oracle (bound parameters vs reference-rendered literals)",
+    ),
+    "C10": (
+        "E2-product",
+        "exploration",
+        "complete enumeration of written-out argument alphabets per rewritten construct (REGEXP_SUBSTR/REPLACE, SPLIT, TRIM family, TO_DATE/TO_TIMESTAMP, TO_DECIMAL family and TRY_ forms, numeric/float/timestamp casts, DATEADD/DATEDIFF over all date parts, SHA2 family, EQUAL_NULL, RANDOM(seed), SAMPLE SEED, IDENTIFIER, VALUES columnN, ARRAY_AGG, alias in JOIN) x expression contexts (select list, WHERE, nested, CTE, view, INSERT..SELECT, UPDATE SET), each compared with a reference implementation written from the Snowflake documentation",
+        "trusted: mc/ref/sf_functions.py (selftested against documentation examples); regex alphabet restricted to the subset where POSIX ERE and Python re agree; forms named in REJ_OK_TODAY may be rejected (the property allows rejection) but never answered wrongly",
+        "bounded exhaustive enumeration (finite input product) on the real code against a documentation-derived reference evaluator",
+    ),
 }
 
 NOT_BUILT = "check not built yet in this round (planned per DESIGN.md §3); no claim is made"
